@@ -32,7 +32,7 @@ GAGGS = ["sum", "count", "size", "mean", "var", "std"]
 
 @st.composite
 def case_strategy(draw, tier="quick"):
-    t = draw(dc.table(categorical=True, nan_keys=True))
+    t = draw(dc.table(categorical=True, nan_keys=True, inf=True))
     cuts = draw(dc.cuts_for(len(t["rows"])))
     group = draw(st.sampled_from([None, None, "col", "series", "mod2"]))
     if group == "mod2" and t["gkind"] in ("str", "cat"):
